@@ -116,8 +116,30 @@ func vc09Adjust(shapes int) {
 	for i, o := range pop.Organisms {
 		orig[i] = o.Fitness
 	}
+	// reference NEAT rule for the species-shared, age-adjusted fitness (documented with the options
+	// "age_significance", "dropoff_age"): a species that has not improved for drop-off-age generations is penalised
+	// by a factor 0.01, a species up to ten generations old is boosted by the age significance, and the result is
+	// shared among the members (divided by the species size)
+	type expect struct {
+		o    *Organism
+		want float64
+	}
+	var wants []expect
+	for _, sp := range pop.Species {
+		stagnant := (sp.Age-sp.AgeOfLastImprovement+1)-opts.DropOffAge >= 0
+		young := sp.Age <= 10
+		for _, o := range sp.Organisms {
+			f := o.Fitness
+			f = vIteF(stagnant, f*0.01, f)
+			f = vIteF(young, f*opts.AgeSignificance, f)
+			wants = append(wants, expect{o, f / float64(len(sp.Organisms))})
+		}
+	}
 	for _, sp := range pop.Species {
 		sp.adjustFitness(opts)
+	}
+	for _, w := range wants {
+		vAssertEqF(w.o.Fitness, w.want, "C09: shared fitness = age-adjusted fitness (0.01 penalty when stagnant, age-significance boost up to age ten) / species size")
 	}
 	// species-shared: within a species the adjusted fitness is one age factor times original/size
 	for _, sp := range pop.Species {
@@ -291,7 +313,9 @@ func sortedSpeciesWithQuotas(ns int, popSize int) ([]*Species, *neat.Options) {
 	return ss, opts
 }
 
-func vc09Redistribute(maxSpecies, popSize int) {
+func vc09Redistribute(maxSpecies, popSizeBase int) {
+	// an odd and an even population size; the larger one makes the stolen-babies blocks (N/5, N/5, N/10) exceed one
+	popSize := []int{popSizeBase + 1, 2*popSizeBase + 1, 2 * popSizeBase}[vChoice("PopSize", 3)]
 	ns := 1 + vChoice("species", maxSpecies)
 	ss, opts := sortedSpeciesWithQuotas(ns, popSize)
 	pop := newPopulation()
